@@ -1,5 +1,5 @@
 From SV Require Import Base.ListX Store.Masked World.Env World.Join World.JoinProps World.JoinAbs World.JoinRefine
-  World.JoinAbsProps World.EnvSim World.JoinEvents.
+  World.JoinAbsProps World.EnvSim World.JoinEvents World.JoinEventStream.
 From SV Require Import Store.StoreInv.
 From SV Require Import Props.C13.
 Check (C13_visits_the_storages_members : forall e eids sid mode selmod selrem d others i,
@@ -40,3 +40,6 @@ Check (C13_event_only_for_items_fetched_mutably : forall av hs excl eids sid mod
      else []) ++ env_chan e sid).
 Check (C13_reading_emits_nothing : forall e sid i ms m, NM.find sid (se_stores e) = Some ms -> MInv ms m ->
   NS.mem i (ms_mask ms) = true -> forall s, env_chan (fst (env_jact e sid (JRead i))) s = env_chan e s).
+Check (C13_events_of_a_whole_join : forall e av eids hs k ms s, TInv e ->
+  cx_stuck (se_cx (fst (env_join e av eids hs k ms))) = false ->
+  env_chan (fst (env_join e av eids hs k ms)) s = jout_evs s (tag e s) hs ms (snd (env_join e av eids hs k ms)) ++ env_chan e s).
